@@ -122,14 +122,16 @@ _fn("C10", "runtime monitor under a deterministic scheduler: concurrent executio
     "by the same server) and no command may be completed by the watchdog.  Held on the command sets and schedules counted in the evidence.",
     "schedules are arrival orders of I/O completions, timers and commands only; the sequential reference is the same code run one command at a time (its sequential correctness is C01-C05's subject)", engine="sloop")
 CHECKS["C11"] = dict(category="fault_enumeration",
-    technique="fault injection: SIGKILL before every persistent mutation (audit events + SQL statements) of each history; recovery oracle over the surviving client-side ledger",
+    technique="fault injection: SIGKILL before every persistent mutation (audit events + SQL statements) of each history and, with strace syscall fault injection, before the K-th write/fsync/pwrite64/fdatasync/unlink system call; recovery oracle over the surviving client-side ledger",
     text=("Fault enumeration: for each representative history (messages/flags/expunge; copy/move/namespace; pack + delivery + RENAME INBOX; bare start-up on fresh, pre-existing and "
           "old-schema directories) the server runs in a child process that kills itself before mutation K, for every K (thorough: every point of every history; quick: start-up "
           "histories exhaustively, the others sampled); a fresh process, every third time after an MH delivery made while the server was down, restarts the server: start-up must "
           "succeed, every mailbox must SELECT, every acknowledged APPEND/COPY/MOVE message is present, acknowledged expunges stay expunged, acknowledged flags persist, no "
           "revealed (UIDVALIDITY, UID) names another message and UIDNEXT is above every revealed UID.  One open known finding (message-number reuse while down after an "
-          "interrupted removal)."),
-    note="a crash is a process kill at Python-level mutation points; completed write()s survive; power loss / torn writes and kills inside one SQLite commit are out of scope",
+          "interrupted removal).  Second tier: the same histories under strace with SIGKILL injected on entry to the K-th system call of a lane (file lane: write, writev, fsync, "
+          "ftruncate; database lane: pwrite64, fdatasync, unlink), which produces the states inside one mutation (empty message file, truncated .mh_sequences, journal written "
+          "but not synced); same recovery oracle, in-flight tolerance exact (flags of a message must equal the model before or after the in-flight command)."),
+    note="a crash is a process kill (Python-level mutation points and system-call entries); completed write()s survive; power loss / torn writes below the system-call level are out of scope; strace counts system calls per thread",
     design="DESIGN.md section 4 C11", engine="crash")
 
 PENDING = "check under construction in this round; not yet validated against the unchanged tree and seeded changes"
@@ -167,7 +169,7 @@ def main():
         "engines": [
             {"name": "rig+vloop", "path": "asimap_verif/rig.py", "serves_properties": sorted(CHECKS), "kind_free_text": "real per-user server in process, sessions at the byte boundary, virtual-time event loop, audit-hook guard + mount-namespace jail"},
             {"name": "sloop", "path": "asimap_verif/vloop.py", "serves_properties": ["C10"], "kind_free_text": "deterministic scheduler: virtual-time event loop that parks thread-pool and aiosqlite completions and releases them under a recorded, replayable strategy"},
-            {"name": "crash", "path": "asimap_verif/crash.py", "serves_properties": ["C11"], "kind_free_text": "kill-point driver (audit hook + sqlite trace callback) and recovery oracle in separate processes"},
+            {"name": "crash", "path": "asimap_verif/crash.py", "serves_properties": ["C11"], "kind_free_text": "kill-point driver (audit hook + sqlite trace callback; strace -e inject=...:signal=SIGKILL:when=K for system-call level kills) and recovery oracle in separate processes"},
             {"name": "frontend", "path": "asimap_verif/props/c19.py", "serves_properties": ["C18", "C19"], "kind_free_text": "real server.IMAPClient / POP3Client / IMAPSubprocessInterface objects with fed StreamReaders and recording writers"},
             {"name": "refparse", "path": "asimap_verif/refparse.py", "serves_properties": ["C08"], "kind_free_text": "independent reference reader of the RFC 3501 command grammar"},
             {"name": "wire", "path": "asimap_verif/wire.py", "serves_properties": sorted(CHECKS), "kind_free_text": "strict independent IMAP response / POP3 reply parser (oracle for C07, decoder for all)"},
